@@ -59,6 +59,7 @@ class Abs(object):
         self.ndat = 0
         self.rx = 'idle'       # idle / cmd / need_ds / ds
         self.half = False
+        self.dead = False      # the connection is gone without this being readable yet: the next write fails
         self.remaining = 10.0 if self.m[2] else None
         self.edges = []
 
@@ -113,6 +114,8 @@ class Abs(object):
                                     out.append('PP:%s,%s' % (x, y))
             if 'Evt17' in row:
                 out.append('close')
+                if not self.dead and not self.half and sta in (3, 6, 7, 8):
+                    out.append('gone')
         if artim:
             if self.remaining is not None and self.remaining > 4.5:
                 out.append('tick4')
@@ -214,6 +217,9 @@ class Abs(object):
                 self.rx, self.ncmd, self.ndat = 'idle', 0, 0
         elif a == 'close':
             conc, mevs = ('close',), ['Evt17']
+        elif a == 'gone':
+            conc, mevs = ('gone',), []
+            self.dead = True
         elif a == 'tick4':
             conc, mevs = ('tick', 4.0), []
             self.remaining -= 4.0
@@ -242,7 +248,14 @@ class Abs(object):
         for ev in mevs:
             row = self.delta.get(self.m, {})
             if ev not in row:
+                if self.dead and self.m[3] != 'open':
+                    continue        # what was queued behind the failed write meets a closed connection: nothing happens
                 raise common.HarnessError('abstract event %s not enabled in model state %r' % (a, self.m))
+            if self.dead and self.m[3] == 'open' and any(x.startswith('send:') for x in row[ev][0]) and 'Evt17' in row:
+                # the write this action starts with fails: the provider learns that the connection is gone - that is the
+                # transport-closed event in the state it was in, and nothing of the action itself happens
+                ev = 'Evt17'
+                outs.append('dead-write')
             o, nxt = row[ev]
             self.edges.append((self.m, ev))
             outs += list(o)
@@ -254,7 +267,7 @@ class Abs(object):
         return conc, outs
 
     def key(self):
-        return (self.m, self.rx, self.ncmd, self.ndat, self.half, self.remaining)
+        return (self.m, self.rx, self.ncmd, self.ndat, self.half, self.remaining, self.dead and self.m[3] == 'open')
 
 
 def _expected_of(hist, role, delta):
@@ -366,7 +379,8 @@ def check_history(role, hist, delta, deviations=None, mpl=16384):
                         ref = _DIGESTS.setdefault(want_len, x[4])
                         if ref != x[4]:
                             viol.append((tag + ':dimse-digest', 'reassembled message content differs from the same message received earlier: %r (%s)' % (x, where)))
-            if aev != 'close' and not aev.endswith('+close') and not aev.startswith('PP:') and ('close' in st['log']) != ('close' in outs):
+            if aev != 'close' and not aev.endswith('+close') and not aev.startswith('PP:') and 'dead-write' not in outs and \
+                    ('close' in st['log']) != ('close' in outs):
                 viol.append((tag + ':close', 'event %s in Sta%s: transport %s, model says %s (%s)' % (
                     aev, prev_state, 'closed' if 'close' in st['log'] else 'not closed', 'close' if 'close' in outs else 'keep', where)))
             if (sta, st['timer'], st['sock']) != (m[0], m[2], m[3]):
